@@ -74,6 +74,8 @@ def run_property(P, tier, seed, replay=None):
     violations = []     # dicts: case, what, profile, found_input
     info = {}
 
+    # 0. main-tree runs build in a per-property mirror of coq/ (no cross-property lock contention)
+    vlib.use_private_coq(pid)
     # 1. translators (only the ones this property depends on) + proof gate
     tproblems = vlib.translate(getattr(P, "translators", None))
     gate = vlib.coq_property_gate(pid, P.coq_dirs)
